@@ -597,7 +597,7 @@ def replay(ctx, payload):
 
 # ----------------------------------------------------------------------------- C15 adapter (added by the integrator)
 _C15_FAM = {"int": "int", "bigint": "bigint", "str": "plain", "tuple": "tuple", "frozenset": "frozenset",
-            "falsy": "int", "nested": "nested", "lookalike": "mixed"}
+            "falsy": "int", "nested": "nested", "lookalike": "mixed", "npint": "bigint"}
 
 
 def c15_cases(rng, k):
